@@ -1,6 +1,6 @@
 (* C14 -- redo-ifcreate and redo-always dependencies (local theorems). *)
 From Coq Require Import ZArith List.
-From Redo Require Import Base Build.Protect Build.CleanDb Build.Settle Build.SettleJob.Bytes Build.Model Build.LocalProofs Build.FailProofs Build.CleanProofs.
+From Redo Require Import Base.Bytes Build.Model Build.LocalProofs Build.FailProofs Build.Protect Build.CleanProofs Build.CleanDb Build.Settle Build.SettleJob.
 
 (* declaring redo-ifcreate for an existing path is an error and records nothing *)
 Theorem C14_ifcreate_existing_errors : forall t ns w,
